@@ -16,15 +16,19 @@ RULE = ("(a) findNearestZeroCrossing on in-memory Wav and file-backed QueryWav: 
         "the model's) and 8000, 16000, 44100 (judged by the oracle only) x every kind of target (on samples, a quarter / half sample "
         "off, the two ends) x timeStep from below two samples up to the whole recording, whole and fractional numbers of samples, "
         "plus the default 0.002 s; each call under a 3 s alarm (termination); (b) tgBoundariesToZeroCrossings on random textgrids; "
-        "(c) audioSplice x insertion points x optional replaced region x alignToZeroCrossing; non-trivial = the recording has a crossing")
+        "(c) audioSplice x insertion points x optional replaced region x alignToZeroCrossing, judged on the real objects, and "
+        "(d) audioSplice on the tick grid (8000/16000/64 Hz, entries and points on and around the requested times, target tier "
+        "present / a point tier / absent): recording and whole textgrid compared with the model; non-trivial = the recording has a crossing")
 EXPLANATION = ("Props/C18.v proves for every recording, target and step that the search terminates and that whatever it returns is "
                "on a sample position inside the recording and is a genuine crossing, and that the only errors are ArgumentError "
                "(step below two samples) and FindZeroCrossingError.  The implementation's result is compared with the model on the "
                "exact time grid and judged by the statement of the property (range, on-sample, genuine crossing, documented "
-               "errors) inside Coq on all grids; tgBoundariesToZeroCrossings and audioSplice are judged on the real objects.")
+               "errors) inside Coq on all grids; tgBoundariesToZeroCrossings and audioSplice are compared with their models (tg_zc, splice) "
+               "whenever no candidate pair is exactly tied, and judged by the statement of the property in every case.")
 TRUSTED = ["model: Audio/ZeroCross.v (getInterval, _findNextZeroCrossing, _getZeroThresholdCrossing, chooseClosestTime, the search loop with fuel)",
            "at the non-dyadic rates the window bookkeeping runs in binary64 (left -= timeStep ...); there only the outcome is judged, not its equality with the model",
-           "audioSplice and tgBoundariesToZeroCrossings are evaluated on the implementation (they compose C08/C11/C16 operations); not modelled"]
+           "models: Textgrid/TgZc.v tg_zc (tgBoundariesToZeroCrossings), Textgrid/TgSplice.v splice, shift_tg (audioSplice, _shiftTimes)",
+           "a search with two candidates at exactly the same distance is decided by binary64 rounding at these rates: such cases are judged by the oracle only"]
 ASSUMPTIONS = ["mono recordings; targets inside [0, duration]"]
 RATES_DY = [8, 16, 64]
 RATES_DEC = [8000, 16000, 44100]
@@ -125,7 +129,106 @@ def generate(tier, rng):
                       "scale": ["ticks", K]})
     for _ in range(150 if tier == "quick" else 4000):
         cases.append({"op": "splice", "seed": rng.randint(0, 10 ** 9), "scale": ["ticks", K], "s": []})
+    # audioSplice on a tick grid: the recording and the whole textgrid that come back, against the model
+    n2 = 0
+    while n2 < (260 if tier == "quick" else 6000):
+        c = _gen_splice2(rng)
+        if c is not None:
+            cases.append(c)
+            n2 += 1
     return cases
+
+
+def _gen_splice2(rng):
+    rate = rng.choice([8000, 16000, 8000, 16000, 8000, 64])
+    n = rng.randint(200, 500)
+    kind = rng.choice(["sine", "sine", "random", "sparse"])
+    per = rng.choice([16, 20, 32, 37])
+    if kind == "sine":
+        s = [round(1000 * math.sin(2 * math.pi * i / per)) for i in range(n)]
+    elif kind == "random":
+        s = [rng.randint(-50, 50) for _ in range(n)]
+    else:
+        s = [rng.randint(1, 50) for _ in range(n)]
+        for _k in range(rng.randint(2, 8)):
+            s[rng.randrange(n)] = rng.choice([0, -5])
+    m = rng.randint(40, 150)
+    sp = [round(700 * math.sin(2 * math.pi * (i + rng.choice([0, 3])) / per)) for i in range(m)]
+    cuts = sorted(rng.sample(range(0, n + 1, 2), 2 * rng.randint(1, 4)))
+    ents = [[cuts[i] * K, cuts[i + 1] * K, "w%d" % i] for i in range(0, len(cuts), 2)]
+    if rng.random() < 0.3 and len(ents) > 1:
+        ents[1][0] = ents[0][1]
+    gaps, prev = [], 0
+    for a, b, _ in ents:
+        if a // K - prev >= 2:
+            gaps.append((prev, a // K))
+        prev = b // K
+    if n - prev >= 2:
+        gaps.append((prev, n))
+    if not gaps:
+        return None
+    ga, gb = rng.choice(gaps)
+    u = rng.random()
+    i0 = ga if u < 0.3 else gb if u < 0.4 else rng.randint(ga, gb)
+    a = i0 * K + (rng.choice([1, 2]) if rng.random() < 0.06 and i0 < n else 0)     # now and then off the sample grid
+    b = None
+    if rng.random() < 0.4 and gb - i0 >= 1:
+        j = rng.randint(i0 + 1, gb) if rng.random() < 0.8 else rng.randint(i0, min(n, gb + 30))
+        b = j * K
+    pts = set(rng.sample(range(0, n + 1), rng.randint(0, 4)))
+    if rng.random() < 0.5:
+        # points on and right around the requested times: the ones on them move with them, and may meet a neighbour
+        pts.add(i0)
+        for _k in range(rng.randint(0, 3)):
+            pts.add(max(0, min(n, i0 + rng.randint(-9, 9))))
+        if b is not None and rng.random() < 0.5:
+            pts.add(b // K)
+    pents = [[p * K, "m%d" % j] for j, p in enumerate(sorted(pts))]
+    tiers = [{"kind": "I", "name": "words", "entries": ents, "min": 0, "max": n * K}]
+    if rng.random() < 0.8:
+        tiers.append({"kind": "P", "name": "pts", "entries": pents, "min": 0, "max": n * K})
+    if rng.random() < 0.4:
+        c2 = sorted(rng.sample(range(0, n + 1), 2 * rng.randint(0, 3)))
+        e2 = [[c2[i] * K, c2[i + 1] * K, "x%d" % i] for i in range(0, len(c2), 2)]
+        if e2 and rng.random() < 0.5:
+            e2[0][rng.choice([0, 1])] = i0 * K
+        e2 = sorted(e for e in e2 if e[0] < e[1])
+        if all(x[1] <= y[0] for x, y in zip(e2, e2[1:])):
+            tiers.insert(rng.choice([0, 1]), {"kind": "I", "name": "other", "entries": e2, "min": 0, "max": n * K})
+    return {"op": "splice2", "rate": rate, "s": s, "seg": sp, "tiers": tiers, "a": a, "b": b,
+            "align": rng.random() < (0.65 if rate != 64 else 0.15),
+            "name": rng.choice(["words"] * 18 + ["pts", "zz"]), "label": rng.choice(["NEW", "NEW", " n ", ""]), "scale": ["ticks", K]}
+
+
+def _run_splice2(case):
+    from praatio import praatio_scripts
+    from praatio.data_classes.textgrid import Textgrid
+    from praatio.data_classes.interval_tier import IntervalTier
+    from praatio.data_classes.point_tier import PointTier
+    rate, s = case["rate"], case["s"]
+    f = lambda tk: tk / (K * rate)  # noqa
+    wav, spl = _wav(s, 2, rate), _wav(case["seg"], 2, rate)
+    tg = Textgrid(0.0, f(len(s) * K))
+    for t in case["tiers"]:
+        if t["kind"] == "I":
+            tg.addTier(IntervalTier(t["name"], [(f(a), f(b), lab) for a, b, lab in t["entries"]], f(t["min"]), f(t["max"])))
+        else:
+            tg.addTier(PointTier(t["name"], [(f(a), lab) for a, lab in t["entries"]], f(t["min"]), f(t["max"])))
+    awav, out = _with_alarm(lambda: praatio_scripts.audioSplice(wav, spl, tg, case["name"], case["label"], f(case["a"]),
+                                                                None if case["b"] is None else f(case["b"]), case["align"]))
+
+    def tk(x):
+        v = _tick(x, rate)
+        if v is None:
+            raise core.OffGrid("time %r is not on the tick grid" % x)
+        return v
+    tiers = []
+    for t in out.tiers:
+        isP = type(t).__name__ == "PointTier"
+        ents = [[tk(e[0]), e[1]] for e in t.entries] if isP else [[tk(e[0]), tk(e[1]), e[2]] for e in t.entries]
+        tiers.append({"kind": "P" if isP else "I", "name": t.name, "entries": ents, "min": tk(t.minTimestamp), "max": tk(t.maxTimestamp)})
+    smp = [int.from_bytes(awav.frames[2 * k:2 * k + 2], "little", signed=True) for k in range(len(awav.frames) // 2)]
+    return {"samples": smp, "tiers": tiers, "min": tk(out.minTimestamp), "max": tk(out.maxTimestamp)}
 
 
 def _wav(s, w, rate):
@@ -365,6 +468,11 @@ def run(case):
         return core.run_guarded(lambda: _run_splice(case))
     if op == "tgzc2":
         return core.run_guarded(lambda: _run_tgzc2(case))
+    if op == "splice2":
+        try:
+            return core.run_guarded(lambda: _run_splice2(case))
+        except Timeout:
+            return {"timeout": True, "printed": False}
     if op == "zchist":
         def hh():
             wav = _wav(case["s"], case["w"], case["rate"])
@@ -442,6 +550,20 @@ def emit_multi(case, r):
 
 
 def emit(case, r):
+    if case["op"] == "splice2":
+        if "ok" not in r and "err" not in r:
+            return None
+        from .. import tgops
+        st = max(0, round(0.002 * case["rate"] * K))
+        g = tgops.ctg({"tiers": case["tiers"], "min": 0, "max": len(case["s"]) * K})
+        if "ok" in r:
+            v = r["ok"]
+            out = "(Ok (%s, %s))" % (c16.czl(v["samples"]), tgops.ctg({"tiers": v["tiers"], "min": v["min"], "max": v["max"]}))
+        else:
+            out = "(Err %s)" % r["err"]
+        b = "None" if case["b"] is None else "(Some %s)" % core.cz(case["b"])
+        return "SpliceC %d %s %s %s %s %s %s %s %s %s %s" % (K, c16.czl(case["s"]), c16.czl(case["seg"]), core.cz(st), g, core.ctext(case["name"]),
+                                                         core.ctext(case["label"]), core.cz(case["a"]), b, core.cbool(case["align"]), out)
     if case["op"] == "tgzc2":
         if "ok" not in r and "err" not in r:
             return None
@@ -485,12 +607,21 @@ def py_checks(case, r):
         if "offgrid" in r:
             return ["tgBoundariesToZeroCrossings: %s" % r["offgrid"]]
         return []
+    if case["op"] == "splice2":
+        if "timeout" in r:
+            return ["audioSplice did not return within 3 s"]
+        if "offgrid" in r:
+            return ["audioSplice: %s" % r["offgrid"]]
+        return []
     if "timeout" in r:
         return ["findNearestZeroCrossing did not return within 3 s (target %r ticks, step %r ticks, %d samples)" % (case["t"], case["st"], len(case["s"]))]
     return []
 
 
 def classify(case, r):
+    if case["op"] == "splice2":
+        return "splice2/%s/%s/%s" % ("align" if case["align"] else "asis", "replace" if case["b"] is not None else "insert",
+                                     "ok" if "ok" in r else "err:" + r["err"] if "err" in r else "other")
     if case["op"] != "zc":
         return case["op"]
     out = "timeout" if "timeout" in r else "err:" + r["err"] if "err" in r else "offgrid" if "offgrid" in r else "ok"
